@@ -309,12 +309,6 @@ def run_sei(c, ctx):
     round_trip(sim, c["n"], dt, ctx, "sei", P, dict(OMEGA=Om), dmin=0.05 if c["gravity"] == "basic" else None)
 
 
-def prepare(tier):
-    import os
-    # see c03.prepare: the runner's 400 s traceback watchdog can crash long (thorough) jobs
-    os.environ.setdefault("VERIF_DUMP_AFTER", "100000")
-
-
 def subs(tier):
     return [
         Sub("janus", run_janus, strategy=janus_case, quick=1600, thorough=40000, shards_quick=8, shards_thorough=16),
